@@ -17,7 +17,7 @@ pub const ASSUMPTIONS: &[&str] = &[
     "a generated text the parser rejects is a generator defect: counted, never a violation",
 ];
 
-pub const RULE: &str = "(a) the .ak files shipped under examples/ and benchmarks/; (b) modules printed from the typed generator (see C01: when/if/expect/records/pipes/captures/lambdas, literals in hex / underscore / byte-array notations); (c) an untyped expression grammar over all binary operators with parentheses placed at random (every precedence / associativity pairing with and without parentheses), unary operators, pipes, captures incl. record constructors with labelled holes, record construction / update / punning, field access / tuple index / call on parenthesised compound receivers, backpassing, integer literals with thousands separators and signs (also in patterns), tuples, lists with spread, if / when / and / or blocks, trace / todo / fail, strings with escapes; line, doc and module comments inserted at random line boundaries of (b) and (c). Non-trivial = the module contains a nested binary expression of depth >= 3 with mixed operators, or a comment, or a capture; distinct by source text.";
+pub const RULE: &str = "(a) the .ak files shipped under examples/ and benchmarks/; (b) modules printed from the typed generator (see C01: when/if/expect/records/pipes/captures/lambdas, literals in hex / underscore / byte-array notations); (c) an untyped expression grammar over all binary operators with parentheses placed at random (every precedence / associativity pairing with and without parentheses), unary operators, pipes, captures incl. record constructors with labelled holes, record construction / update / punning, field access / tuple index / call on parenthesised compound receivers, backpassing, integer literals in every `_` grouping the lexer accepts, leading zeros included, with signs (also in patterns; compared by the number denoted), tuples, lists with spread, if / when / and / or blocks, trace / todo / fail, strings with escapes; line, doc and module comments inserted at random line boundaries of (b) and (c). Non-trivial = the module contains a nested binary expression of depth >= 3 with mixed operators, or a comment, or a capture; distinct by source text.";
 
 pub const KNOWN_TRAILING: &str = "formatter:trailing-comment-not-idempotent";
 
@@ -30,8 +30,21 @@ fn erase(s: &str) -> String {
     let mut out = String::with_capacity(s.len());
     for line in s.lines() {
         let t = line.trim_start();
-        if t.starts_with("end_position:") || t.starts_with("one_liner:") {
+        if t.starts_with("end_position:") || t.starts_with("one_liner:") || t.starts_with("numeric_underscore:") {
             continue;
+        }
+        // an integer literal is compared by the number it denotes: `0_1` and `1` are the same tree
+        if let Some(lit) = t.strip_prefix("value: \"").and_then(|r| r.strip_suffix("\",")) {
+            // (a negative literal pattern keeps its sign inside `value`)
+            let (sign, digits) = match lit.strip_prefix('-') {
+                Some(d) => ("-", d),
+                None => ("", lit),
+            };
+            if digits.len() > 1 && digits.bytes().all(|c| c.is_ascii_digit()) {
+                let z = digits.trim_start_matches('0');
+                out.push_str(&format!("value: \"{sign}{}\",\n", if z.is_empty() { "0" } else { z }));
+                continue;
+            }
         }
         // spans print as `start..end`
         let mut cleaned = String::with_capacity(line.len());
@@ -164,9 +177,24 @@ impl G<'_, '_> {
         self.src.pick(&["a", "b", "c", "d", "xs", "foo", "bar_baz", "x1"]).to_string()
     }
 
-    /// a decimal literal with 1-9 digits, `_` separators at the thousands positions (the only
-    /// grouping the formatter can reproduce) and no leading zero
+    /// a decimal literal: mostly 1-9 digits with `_` at the thousands positions and no leading
+    /// zero; one time in four any grouping the lexer accepts (groups of 1-3 digits, at least two
+    /// groups, leading zeros allowed: `0_1`, `1_00`, `00_0`) - the formatter regroups those, and
+    /// the oracle compares the integer denoted (see `erase`)
     fn grouped_int(&mut self) -> String {
+        if self.src.chance(1, 4) {
+            let groups = 2 + self.src.below(3);
+            let mut out = String::new();
+            for g in 0..groups {
+                if g > 0 {
+                    out.push('_');
+                }
+                for _ in 0..1 + self.src.below(3) {
+                    out.push(char::from(b'0' + if self.src.chance(1, 3) { 0 } else { self.src.below(10) as u8 }));
+                }
+            }
+            return out;
+        }
         let n = 1 + self.src.below(9);
         let digits: String = (0..n).map(|i| if i == 0 { char::from(b'1' + self.src.below(9) as u8) } else { char::from(b'0' + self.src.below(10) as u8) }).collect();
         if n > 3 && self.src.chance(2, 3) {
